@@ -564,8 +564,11 @@ static size_t bundle_ring_length(ring_t *ring)
                   deref(pos+1, ring) << (8*2) |
                   deref(pos+2, ring) << (8*1) |
                   deref(pos+3, ring) << (8*0);
-        //The element has to fit into the remaining bytes
-        if(advance > total-pos)
+        //The element has to fit into the remaining bytes and has to end at a
+        //position an unsigned can hold: pos must not wrap around
+        //(total is SIZE_MAX for rtosc_message_length(msg, -1))
+        if(advance > total-pos ||
+                (advance && (uint64_t)pos+4+advance > UINT32_MAX))
             return 0;
         if(advance)
             pos += 4+advance;
